@@ -1,5 +1,5 @@
 (** C11 — De Bruijn-notation Debug output parses back to the identical term *)
-From LC Require Import Spec.Printing Model.Parser Model.Display Proofs.Printing Proofs.RoundTripDbr.
+From LC Require Import Spec.Printing Model.Parser Model.Display Proofs.Printing Proofs.RoundTripDbr Gen.PrintSrc Proofs.PrintSrcTie.
 
 (** for every term (open or closed) whose indices lie in 1..15, under both glyphs: parsing the
     Debug output of the model with the model of the parser yields exactly the original term.
@@ -14,9 +14,19 @@ Proof. exact debug_roundtrip. Qed.
 Theorem C11_format : forall lam t, indices_in 1 15 t = true -> debug lam t = ref_print_dbr lam t.
 Proof. exact debug_format. Qed.
 
+(** The same statements about the printer REGENERATED from src/term.rs on every run (Gen/PrintSrc.v,
+    lib/trans_print.py: show_precedence_dbr, parenthesize_if, the Debug impl; `{:X}` is the modelled upper_hex). *)
+Theorem C11_src_roundtrip : forall lam t, (lam = 955%N \/ lam = 92%N) -> indices_in 1 15 t = true ->
+  parse (map classify (PSrc.debug lam t)) DeBruijn = inr t.
+Proof. exact src_debug_roundtrip. Qed.
+Theorem C11_src_format : forall lam t, indices_in 1 15 t = true -> PSrc.debug lam t = ref_print_dbr lam t.
+Proof. exact src_debug_format. Qed.
+
 Example C11_example :
   debug 955%N (App (Var 15) (App (Abs (Var 10)) (App (Var 1) (Var 2)))) = [70; 40; 40; 955; 65; 41; 40; 49; 50; 41; 41]%N.
 Proof. vm_compute. reflexivity. Qed.
 
 Print Assumptions C11_roundtrip.
 Print Assumptions C11_format.
+Print Assumptions C11_src_roundtrip.
+Print Assumptions C11_src_format.
